@@ -82,6 +82,24 @@ func runOwn(o *opts) {
 	for i := 0; i < nTriples; i++ {
 		seqs = append(seqs, seq{u[r.intn(len(u))], u[r.intn(len(u))], u[r.intn(len(u))]})
 	}
+	// stages with TWO outputs followed / preceded by a single-output stage (an ancestor in the same
+	// map can hide a deeper one)
+	nTwo := 2500
+	if o.tier == "thorough" {
+		nTwo = 30000
+	}
+	type twoSeq struct {
+		a, b, c ownArt
+		first   bool
+	}
+	var twos []twoSeq
+	for i := 0; i < nTwo; i++ {
+		t := twoSeq{u[r.intn(len(u))], u[r.intn(len(u))], u[r.intn(len(u))], r.chance(1, 2)}
+		if t.a.path == t.b.path {
+			continue
+		}
+		twos = append(twos, t)
+	}
 	names := []string{"m.yaml", "a_first.yaml", "z_last.yaml", "sub/k.yaml", "b.yaml", "zz.yaml"}
 	var cases []string
 	distinct := map[string]bool{}
@@ -128,6 +146,51 @@ func runOwn(o *opts) {
 		}
 		cases = append(cases, fmt.Sprintf("mkOwn %d %s %s %s %s", id, clist(ops), clist(acc), cbool(reload), clist(probes)))
 		s.CaseIndex[fmt.Sprint(id)] = map[string]interface{}{"seq": fmt.Sprint(sq), "accepted": nacc}
+		for _, n := range names {
+			os.Remove(n)
+		}
+	}
+	for _, t := range twos {
+		id++
+		idx := make(index.Index)
+		two := []Art{t.a.art(), t.b.art()}
+		sort.Slice(two, func(i, j int) bool { return two[i].Path < two[j].Path })
+		one := []Art{t.c.art()}
+		seqv := [][]Art{two, one}
+		if !t.first {
+			seqv = [][]Art{one, two}
+		}
+		var ops, acc []string
+		nacc := 0
+		for k, outs := range seqv {
+			name := names[k]
+			stg := mkStageGo(nil, outs, "")
+			// a stage must be valid on its own before it can be added (stage add loads it with FromFile)
+			err := stg.Validate(name)
+			if err == nil {
+				err = idx.AddStage(stg, name)
+			}
+			rec := &StageRec{Out: outs}
+			ops = append(ops, "("+cxs(name)+", "+rec.coq()+")")
+			acc = append(acc, cbool(err == nil))
+			if err == nil {
+				nacc++
+				must(os.MkdirAll(filepath.Dir(name), 0o755))
+				must(stg.ToFile(name))
+			}
+		}
+		reload := true
+		if err := idx.ToFile(".dud/index"); err != nil {
+			reload = false
+		} else if _, err := index.FromFile(".dud/index"); err != nil {
+			reload = false
+		}
+		s.count(fmt.Sprintf("two-output accepted:%d", nacc))
+		if nacc < 2 {
+			distinct[fmt.Sprint(t)] = true
+		}
+		cases = append(cases, fmt.Sprintf("mkOwn %d %s %s %s []", id, clist(ops), clist(acc), cbool(reload)))
+		s.CaseIndex[fmt.Sprint(id)] = map[string]interface{}{"two_output_stage": fmt.Sprint(t), "accepted": nacc}
 		for _, n := range names {
 			os.Remove(n)
 		}
